@@ -16,14 +16,22 @@ func init() {
 			"a rejected operation's error is returned by the transaction body (the library's rollback contract)"},
 		Plan: func(tier core.Tier, seed int64) int {
 			if tier == core.Thorough {
-				return 60000 + 48*20
+				return 60000 + 48*20 + c03DeepCases*10
 			}
-			return 640 + 48
+			return 640 + 48 + c03DeepCases
 		},
 		Run: func(c *core.Ctx, idx int) {
 			nHist := 640
 			if c.Tier == core.Thorough {
 				nHist = 60000
+			}
+			nSib := 48
+			if c.Tier == core.Thorough {
+				nSib *= 20
+			}
+			if idx >= nHist+nSib {
+				c03Deep(c, idx-nHist-nSib) // a store three buckets deep with four indexes
+				return
 			}
 			if idx >= nHist {
 				siblingScenario(c, idx-nHist, "C03") // two sibling child stores with their own indexes, model-free index mirror
